@@ -90,6 +90,12 @@ const TEMPLATES: &[Template] = &[
     Template { name: "enum field from tuple access", src: "enum E { A([T; 2]), B }\npub fn main(x: T) -> T {\n  let a = ([{1:T}, {2:T}], {3:T});\n  let e = E::A(a.0);\n  match e {\n    E::A(v) => v[1] + x,\n    E::B => x,\n  }\n}\n", params: &["T"], ret: "T", signed_only: false, unsigned_only: false, other: None },
     Template { name: "struct field from tuple access", src: "struct S { p: (T, T) }\npub fn main(x: T) -> T {\n  let t = (({1:T}, {2:T}), x);\n  let s = S { p: t.0 };\n  s.p.1 + x\n}\n", params: &["T"], ret: "T", signed_only: false, unsigned_only: false, other: None },
     Template { name: "fn arg from array access", src: "fn f(y: [T; 2]) -> T {\n  y[1]\n}\npub fn main(x: T) -> T {\n  let m = [[{1:T}, {2:T}], [{3:T}, {5:T}]];\n  f(m[0]) + x\n}\n", params: &["T"], ret: "T", signed_only: false, unsigned_only: false, other: None },
+    // numbers that are given a type only after they have been used (known findings: such a number is a
+    // 32-bit value until then)
+    Template { name: "let v=2^32;x+v", src: "pub fn main(x: T) -> T {\n  let v = {4294967296:T};\n  x + v\n}\n", params: &["T"], ret: "T", signed_only: false, unsigned_only: false, other: None },
+    Template { name: "let v=200;let w=v+v;w+x", src: "pub fn main(x: T) -> T {\n  let v = {200:T};\n  let w = v + v;\n  w + x\n}\n", params: &["T"], ret: "T", signed_only: false, unsigned_only: false, other: None },
+    Template { name: "let v=0-1;v+x", src: "pub fn main(x: T) -> T {\n  let v = {0:T} - {1:T};\n  v + x\n}\n", params: &["T"], ret: "T", signed_only: true, unsigned_only: false, other: None },
+    Template { name: "match lit {2^32=>..}", src: "pub fn main(x: T) -> T {\n  let y = {0:T};\n  match y {\n    {4294967296:T} => x,\n    _ => y,\n  }\n}\n", params: &["T"], ret: "T", signed_only: false, unsigned_only: false, other: None },
     Template { name: "two pub fns", src: "pub fn main(x: T) -> T {\n  x + {1:T}\n}\npub fn other(y: T, z: bool) -> (bool, T) {\n  (z, y & {1:T})\n}\n", params: &["T"], ret: "T", signed_only: false, unsigned_only: false, other: Some(("other", &["T", "bool"], "(bool,T)")) },
 ];
 
@@ -118,6 +124,7 @@ pub const ZERO_SIZED: &[(&str, &str, &[usize], usize)] = &[
     ("unit result after an index and an addition", "pub fn main(a: [u8; 2], i: usize) -> () {\n  let mut b = a;\n  b[i] = b[i] + 1u8;\n}\n", &[16, 32], 0),
     ("empty array result after a shift", "pub fn main(x: u8, s: u8) -> [u8; 0] {\n  let z = x << s;\n  [z; 0]\n}\n", &[8, 8], 0),
     ("empty struct result after a multiplication", "struct Z {}\npub fn main(x: i8, y: i8) -> Z {\n  let z = x * y;\n  Z {}\n}\n", &[8, 8], 0),
+    ("join of two empty arrays indexed", "pub fn main(a: [u8; 0], b: [u8; 0], i: usize) -> (bool, u8) {\n  let j = join(a, b);\n  j[i]\n}\n", &[0, 0, 32], 9),
     ("join a wider n2m1", "pub fn main(a: [(u8, u16); 2], b: [(u8, u8); 1]) -> [(bool, (u8, u16), (u8, u8)); 2] {\n  join(a, b)\n}\n", &[48, 16], 82),
     ("join a wider n1m2", "pub fn main(a: [(u8, u16); 1], b: [(u8, u8); 2]) -> [(bool, (u8, u16), (u8, u8)); 2] {\n  join(a, b)\n}\n", &[24, 32], 82),
     ("join a wider n3m2", "pub fn main(a: [(u8, u16, bool); 3], b: [(u8, u8); 2]) -> [(bool, (u8, u16, bool), (u8, u8)); 4] {\n  join(a, b)\n}\n", &[75, 32], 168),
@@ -303,6 +310,10 @@ pub fn family_i_jobs() -> (Vec<IJob>, BTreeMap<String, u64>) {
     for tpl in TEMPLATES {
         for t in tys {
             if (tpl.signed_only && !t.signed()) || (tpl.unsigned_only && t.signed()) {
+                continue;
+            }
+            // the late-typed number templates only make sense where the number is a value of the type
+            if (tpl.src.contains("{4294967296:T}") && t.bits() < 64) || (tpl.src.contains("{200:T}") && !t.fits(200)) {
                 continue;
             }
             let (_, holes) = instantiate(tpl.src, t, 0);
@@ -495,7 +506,7 @@ pub fn run(tier: Tier) -> i32 {
             "evaluations": cnt.programs.load(Ordering::Relaxed) + fr.counters.get("programs"),
             "distinct_nontrivial": cnt.accepted.load(Ordering::Relaxed) + fr.counters.get("nontrivial_programs"),
             "supplied_constant_cases(10 constant types x boundary literals of every number type, see C12)": supplied_cases.load(Ordering::Relaxed),
-            "rule": "family I: 59 templates (incl. elements of tuples / arrays of unsuffixed numbers used at a declared type, and ranges used as arrays), one per path by which an integer literal meets its type (operand either side, nested, through let / let mut / annotated let / destructuring / arrays / repeat / tuples / struct and enum fields / fn arguments / return / if branches / match patterns and arms / block tail / ranges / indices / shift amounts / casts / assignments / negative and out-of-range values), each literal position suffixed or unsuffixed in EVERY subset, for all 9 integer types; plus zero-sized and single-array-parameter programs; an accepted program must compile every pub fn without panic to a circuit that validates, has one party per parameter (per element for a single array parameter) of size(type) bits and 161 + size(return type) outputs that decode; fully suffixed in-range instances must be accepted; every accepted variant with unsuffixed literals must compute the same outputs as the fully suffixed program of its group on 6 input patterns (reported under C01); (a) every program of families E, S, P, D must be accepted and well-shaped; distinct_nontrivial = accepted family-I programs + family programs with >=2 distinct outputs",
+            "rule": "family I: 63 templates (incl. elements of tuples / arrays of unsuffixed numbers used at a declared type, and ranges used as arrays), one per path by which an integer literal meets its type (operand either side, nested, through let / let mut / annotated let / destructuring / arrays / repeat / tuples / struct and enum fields / fn arguments / return / if branches / match patterns and arms / block tail / ranges / indices / shift amounts / casts / assignments / negative and out-of-range values), each literal position suffixed or unsuffixed in EVERY subset, for all 9 integer types; plus zero-sized and single-array-parameter programs; an accepted program must compile every pub fn without panic to a circuit that validates, has one party per parameter (per element for a single array parameter) of size(type) bits and 161 + size(return type) outputs that decode; fully suffixed in-range instances must be accepted; every accepted variant with unsuffixed literals must compute the same outputs as the fully suffixed program of its group on 6 input patterns (reported under C01); (a) every program of families E, S, P, D must be accepted and well-shaped; distinct_nontrivial = accepted family-I programs + family programs with >=2 distinct outputs",
             "suffix_variant_pairs_compared_with_fully_suffixed_program": diff_pairs,
             "suffix_variant_evaluations": diff_evals,
             "functions_refused_for_having_no_input_bit": cnt.refused_no_input_bits.load(Ordering::Relaxed),
